@@ -11,6 +11,7 @@ mod sched;
 mod crash;
 mod s3;
 mod net;
+mod burst;
 
 fn main() {
     let args: Vec<String> = std::env::args().collect();
@@ -25,12 +26,25 @@ fn main() {
     match args[1].as_str() {
         "pending" => pending::run(&args[2], &workdir),
         "oplog" => oplog::run(&args[2], &workdir),
-        "node" => node::run(&args[2], &workdir),
-        "disk" => disk::run(&args[2], &workdir),
-        "cluster" => cluster::run(&args[2], &workdir),
+        "node" => {
+            util::start_watchdog(30);
+            node::run(&args[2], &workdir)
+        }
+        "disk" => {
+            util::start_watchdog(90);
+            disk::run(&args[2], &workdir)
+        }
+        "cluster" => {
+            util::start_watchdog(90);
+            cluster::run(&args[2], &workdir)
+        }
         "sched" => sched::run(&args[2], &workdir),
         "s3" => s3::run(&args[2], &workdir),
         "net" => net::run(&args[2], &workdir),
+        "burst" => {
+            util::start_watchdog(120);
+            burst::run(&args[2], &workdir)
+        }
         "net1" => net::run_one(&args[2], &workdir, args[4].parse().unwrap()),
         "crashb" => crash::run_b(&args[2], &args[3], args.get(4).map(|s| s.as_str()).unwrap_or("A")),
         "crashc" => crash::run_c(&args[2]),
